@@ -99,6 +99,10 @@ func NewPebbleScanner(dbPath string, opts PebbleScannerOptions) (*PebbleScanner,
 		}
 	}
 
+	if err := verifGuardProbe(dbPath, absPath); err != nil {
+		return nil, err
+	}
+
 	if opts.MatchThreshold == 0 {
 		opts.MatchThreshold = 0.75
 	}
@@ -121,6 +125,7 @@ func NewPebbleScanner(dbPath string, opts PebbleScannerOptions) (*PebbleScanner,
 	if opts.ReadOnly {
 		pebbleOpts.ReadOnly = true
 	}
+	verifOpenHook(pebbleOpts)
 
 	// Critical Fix: PebbleDB Locking and Concurrency
 	// We implement a retry loop here because automated pipelines or rapid restarts
